@@ -718,7 +718,7 @@ def run_braid_check(ctx, focus):
     if not binp:
         return
     thorough = ctx.thorough
-    ngraphs = {"C02": 70, "C03": 90, "C05": 110}[focus] * (12 if thorough else 1)
+    ngraphs = {"C02": 70, "C03": 90, "C05": 110}[focus] * ({"C02": 12, "C03": 8, "C05": 8}[focus] if thorough else 1)
     nmax = 40
     graphs = []          # (name, graph, failing, meta)
     replay_plan = None
